@@ -189,9 +189,15 @@ class EinsumDistributiveLawMapper(
                          ) -> Array:
         from pytato.raising import BinaryOp, BinaryOpType, index_lambda_to_high_level_op
 
-        hlo = index_lambda_to_high_level_op(expr)
+        from pytato.diagnostic import UnknownIndexLambdaExpr
 
-        if _can_hlo_be_distributed(hlo):
+        try:
+            hlo = index_lambda_to_high_level_op(expr)
+        except UnknownIndexLambdaExpr:
+            # not a recognized high-level operation: nothing to distribute over
+            hlo = None
+
+        if hlo is not None and _can_hlo_be_distributed(hlo):
             assert isinstance(hlo, BinaryOp)
             # /!\ Warning: Loses metadata.
             rec_x1 = (
